@@ -16,7 +16,7 @@ EXPLANATION = (
     "every tick that TickMarker::new's assert!(tick > prev) would reject: the refusal is `tick <= last_tick`, last_tick is assigned "
     "the written tick on the success path, and Writer::write_tick assigns prev_tick the same tick.  R3 (reader tick guard): "
     "current_tick = Some(t) for an absolute marker is dominated by the `previous >= t` false edge; inline deltas use checked_add.  "
-    "Not decided: the round trip of chunk sequences / typed object sets (value level)."
+    "R2b: a refused write_snap leaves the writer untouched (every write to *self lies behind the pass edge of the tick test).  Not decided: the round trip of chunk sequences / typed object sets (value level)."
 )
 ASSUMPTIONS = [
     "reviewed table lines confirmed by reading the code",
